@@ -236,3 +236,6 @@ def check(ctx):
                        "driver byte builder / projection (field extraction, 2x31-bit payload hashes) is correct",
                        "generated bytes contain no DLT\\x01/DLS\\x01 pattern outside the storage header (well-formed stream)",
                        "whole-file runs avoid inputs that trip adlt's lifecycle stage (version 1, no control messages, monotone times)"]
+
+# round 6 (DESIGN.md 11.10)
+META["technique"] += ' Every third exported file starts with a maximal message (header shape rotating); every second output path exists and is larger.'
